@@ -227,10 +227,25 @@ func H_C12_sign_raw_buckets() {
 	}
 	c12BaseGoverned = 0
 	h := Headers{RawUnprotected: vSer(nnMap(pairs, vWidth("raw.mw", uint64(len(pairs)/2))))}
+	// headers taken from a decoded message carry the parsed map as well (possibly edited since)
+	umap := map[any]any{}
+	switch vChoose("raw.withmap", 3) {
+	case 1:
+		h.Unprotected = UnprotectedHeader(umap)
+	case 2:
+		umap[int64(4)] = vBlob("raw.kid")
+		h.Unprotected = UnprotectedHeader(umap)
+	}
+	nu := len(umap)
 	hv := vBlobN("hash", 32, 32)
 	sp := &spySigner{alg: AlgorithmES256, sig: vBlobN("sig", 1, 100)}
 	vKnown("KF-C12-1", governed)
+	snapH := vSnapshot(&h)
+	vFreeze()
 	out, err := SignHashEnvelope(nil, sp, h, HashEnvelopePayload{HashAlgorithm: AlgorithmSHA256, HashValue: hv})
+	changed := vChanged(&h, snapH)
+	vUnfreeze()
+	vAssert("raw: the caller's header maps and buffers are not written", !changed && len(umap) == nu)
 	if err != nil {
 		vAssert("raw: no bytes with an error", out == nil)
 		vReach("refused")
